@@ -27,6 +27,8 @@ open Yata
 
 inductive Scale where
   | price | vol | unit
+  /-- an absolute scale carried by the model (running maximum of the absolute inputs of the averaging stage) -/
+  | abs (m : Rat)
   deriving Repr, DecidableEq, Inhabited
 
 inductive VExp where
